@@ -43,6 +43,15 @@ CLAIMED = {
         "Trusted: numpy flags/strides/tobytes as observation of mutation. numpy-family backends only.",
         "DESIGN.md §4 C09",
     ),
+    "C13": (
+        "property-based testing with instrumented tensor factories over call histories (first call, cached repeat, graph=True, solve, rejected, misbehaving)",
+        "Generated-input search over operations, descriptions, factory positions and factory signature kinds; an invocation log is the oracle for "
+        "'exactly once, with the resolved shape, declared keywords only, never at compile/graph/solve/rejection time', results are compared with the plain call "
+        "and wrong factory outputs must make the call fail. Exploration only.",
+        "Trusted: the generator's reference shapes (expr.shape_of), the instrumentation closures. The 'contributes no constraint' clause is only asserted where the "
+        "dropped size is definitely undetermined.",
+        "DESIGN.md §4 C13",
+    ),
 }
 NOT_YET = "check not built yet in this round (see DESIGN.md §8 build order); the property has an executable oracle and will be claimed once its check is registered"
 
